@@ -224,4 +224,82 @@ def r47(F):
     return r
 
 
-RULES = [r43, r44, r45, r46, r47]
+def r45s(F):
+    from .. import callgraph
+    r = RuleResult("R45s", "strictness is handed down unchanged",
+                   "every function of the evaluator that takes a `strict` flag (VM::new / with_pointer / fcall_impl ...) receives, at every "
+                   "call site, the caller's own strict flag (a `strict` field or parameter): function bodies, callbacks of map / filter / "
+                   "reduce, modules and imports see an unset variable the way the top level does", floor=10, exhaustive=True)
+    CG = callgraph.get(F)
+    takers = {}
+    for n, fn in F.fns.items():
+        if not n.startswith("ucglib::build::") or fn.derived:
+            continue
+        names = fn.var_names()
+        for i in range(1, fn.nargs + 1):
+            if "strict" in names.get(i, ()) and fn.local_ty(i) == "bool":
+                takers[n] = i
+    # only the flag that ends up in a `strict` field (VM / Builtins / FileBuilder) is the strictness of the evaluation; other
+    # parameters that happen to be called strict (Bind vs BindOver) are something else
+    def stores(n, i):
+        fn = F.fns[n]
+        o = Origins(fn)
+        for b, j, pl, rv, m in fn.assigns():
+            if any(isinstance(e, dict) and e.get("f") == "strict" for e in pl["p"]) and rv.get("ops") and ("param", i) in o.at(rv["ops"][0], b):
+                return True
+            if rv["k"] == "agg" and "strict" in (rv.get("fields") or []):
+                k = rv["fields"].index("strict")
+                if k < len(rv["ops"]) and ("param", i) in o.at(rv["ops"][k], b):
+                    return True
+        return False
+    real = {n for n, i in takers.items() if stores(n, i)}
+    changed = True
+    while changed:
+        changed = False
+        for n, i in takers.items():
+            if n in real:
+                continue
+            fn = F.fns[n]
+            o = None
+            for b, t in fn.calls():
+                tg = [x for x in CG.targets(t) if x in real]
+                if tg and len(t["args"]) >= takers[tg[0]]:
+                    o = o or Origins(fn)
+                    if ("param", i) in o.at(t["args"][takers[tg[0]] - 1], b):
+                        real.add(n)
+                        changed = True
+                        break
+    takers = {n: i for n, i in takers.items() if n in real}
+    need(len(takers) >= 3, "functions taking a `strict` flag not found (%d)" % len(takers))
+    for n, i in sorted(takers.items()):
+        for caller, b in sorted(CG.call_sites(n)):
+            cf = F.fn(caller)
+            if "::test" in caller or "::compile_test" in caller:
+                continue
+            t = cf.term(b)
+            if len(t["args"]) < i:
+                continue
+            a = t["args"][i - 1]
+            if "int" in a:
+                # a literal: only the entry points of the front end decide strictness themselves
+                ok = not caller.startswith("ucglib::build::opcode::")
+                why = "literal %s" % a["int"]
+            else:
+                labs = Origins(cf).at(a, b)
+                fields = {l[1] for l in labs if l[0] == "field"}
+                cnames = cf.var_names()
+                params = {l[1] for l in labs if l[0] == "param"}
+                from_strict = "strict" in fields or any("strict" in cnames.get(p, ()) for p in params)
+                other = sorted(f for f in fields if f in ("validate_mode", "validate", "is_module", "success", "reserved"))
+                ok = from_strict and not other
+                why = "from %s" % (sorted(fields & {"strict"}) or sorted(params))
+            short = caller.split("::")[-1]
+            ordn = sum(1 for x in r.instances if x["key"].startswith("R45s:%s->%s" % (short, n.split("::")[-1])))
+            r.inst("%s->%s:#%d" % (short, n.split("::")[-1], ordn), cf.where(b), ok,
+                   "strict := the caller's strict flag" if ok else
+                   "%s passes %s as the strict flag of %s: inside that evaluation an unset variable is handled by another mode than the "
+                   "one the user chose (a strict build silently yields NULL, or a lenient one fails)" % (short, why, n.split("::")[-1]))
+    return r
+
+
+RULES = [r43, r44, r45, r46, r47, r45s]
